@@ -7,6 +7,7 @@ CONSTANTS
   MaxFeat = 3
   MaxAdm = 5
   MinEmit = 1
+  MinCands = 0
   MaxRmSet = 2
   SampleMod = 16
   SampleRes = 0
